@@ -46,11 +46,11 @@ class ClassInfo:
 
 
 class Module:
-    def __init__(self, name, path, source):
+    def __init__(self, name, path, source, comp=True):
         self.name = name
         self.path = path
         self.source = source
-        self.tree = normalize_module(ast.parse(source, filename=path))
+        self.tree = normalize_module(ast.parse(source, filename=path), comp=comp)
         self.digest = hashlib.sha256(source.encode()).hexdigest()[:16]
         self.classes = {}
         self.functions = {}
@@ -77,7 +77,8 @@ class Module:
 
 
 class Repo:
-    def __init__(self, root=None):
+    def __init__(self, root=None, comp=True):
+        """comp=False keeps statement-level comprehensions as written (for rules that interpret them themselves)"""
         self.root = root or REPO
         self.modules = {}
         self.parse_errors = []
@@ -92,7 +93,7 @@ class Repo:
             try:
                 with open(path, encoding="utf-8") as fh:
                     src = fh.read()
-                self.modules[name] = Module(name, path, src)
+                self.modules[name] = Module(name, path, src, comp=comp)
             except SyntaxError as e:
                 self.parse_errors.append((path, str(e)))
         self.classes = {}
